@@ -460,4 +460,38 @@ def unrolledCalls (pre : List Block) (body : List Block) (iters n coil : Nat) (s
   (pre.flatMap fun b => b.calls n coil sp) ++
     (List.replicate iters (body.flatMap fun b => b.calls n coil sp)).flatten
 
+/-- the blocks an unrolled network executes, in order -/
+def unrolledBlocks (pre body : List Block) (iters : Nat) : List Block := pre ++ (List.replicate iters body).flatten
+
+/-! ### hand-written block schedules of the unrolled networks (compared with the schedules read from each `forward`) -/
+
+structure Sched where
+  pre : List Block := []
+  body : List Block := []
+deriving Repr, DecidableEq
+
+def Sched.blocks (s : Sched) (iters : Nat) : List Block := unrolledBlocks s.pre s.body iters
+
+/-- `Unet2d`: one image-domain call -/
+def schedUnet2d : Sched := { pre := [⟨.image, 2, 2⟩] }
+/-- one image-domain denoiser per iteration (VarNet, RecurrentVarNet, RIM, ConjGradNet, vSHARP) -/
+def schedSingle (cin cout : Nat) : Sched := { body := [⟨.image, cin, cout⟩] }
+/-- KIKINet: k-space model coil by coil, then the image model -/
+def schedKiki : Sched := { body := [⟨.perCoil, 2, 2⟩, ⟨.image, 2, 2⟩] }
+/-- LPDNet: dual update on `cat([h, A f, y])` coil by coil, primal update on `cat([f, A* h])` -/
+def schedLpd (nd np : Nat) : Sched := { body := [⟨.perCoil, 2 * (nd + 2), 2 * nd⟩, ⟨.image, 2 * (np + 1), 2 * np⟩] }
+/-- XPDNet / CrossDomainNetwork `KI…`: optional learned k-space correction, image correction -/
+def schedXpd (nd np : Nat) (kspaceModel : Bool) : Sched :=
+  { body := (if kspaceModel then [⟨.perCoil, 2 * (nd + np + 1), 2 * nd⟩] else []) ++ [⟨.image, 2 * (np + nd), 2 * np⟩] }
+def schedIterDual (perCoil : Bool) : Sched :=
+  { body := [⟨if perCoil then .perCoil else .image, 2, 2⟩, ⟨.image, 2, 2⟩] }
+/-- JointICNet: sensitivity model coil by coil, image model, k-space model (on the coil-combined k-space) -/
+def schedJointIC : Sched := { body := [⟨.perCoil, 2, 2⟩, ⟨.image, 2, 2⟩, ⟨.image, 2, 2⟩] }
+def schedMultiDomain (standardization : Bool) : Sched := { pre := [⟨.perCoil, if standardization then 4 else 2, 2⟩] }
+def schedVarSplit (kspaceModel : Bool) : Sched :=
+  { body := [⟨.image, 4, 2⟩] ++ (if kspaceModel then [⟨.perCoil, 5, 2⟩] else []) }
+/-- CIRIM: per cascade and time step the `depth` conv-RNN stacks and the final layer -/
+def schedCirim (depth hidden : Nat) : Sched :=
+  { body := [⟨.image, 4, hidden⟩] ++ List.replicate (depth - 1) ⟨.image, hidden, hidden⟩ ++ [⟨.image, hidden, 2⟩] }
+
 end DirectVerif.Shapes
